@@ -1526,3 +1526,77 @@ async fn unsolved_golden_ticket_from_a_peer_does_not_stop_block_production() {
     .await;
     if !(latest_block_id > tip_id) { witness(format!("one golden ticket transaction from a peer, whose solution does not meet difficulty {} of tip {}, stalled block production: after 50_000 s of node time the chain is still at block {} although a fee-paying transaction is pooled and the node's own miner found {} valid ticket(s) for the tip (dropped as duplicates); the peer's ticket is still the one pooled for the tip ({}) and every block bundled with it fails validation. hostile input must at worst be rejected, not stop the node from producing blocks (with a valid ticket the same steps produced the next block)", tip_difficulty, tip_id, latest_block_id, mined, still_pooled)); }
 }
+
+/// C03: the by-height index and the tip describe the same chain, also on a lite node that is sent a second ghost chain after its peer reorganised
+#[tokio::test]
+#[serial_test::serial]
+async fn second_ghost_chain_leaves_index_and_tip_on_one_chain() {
+    #[allow(unused_imports)] use crate::core::util::test::node_tester::test::NodeTester;
+    use crate::core::defs::SaitoHash;
+    use crate::core::msg::ghost_chain_sync::GhostChainSync;
+    use crate::core::util::crypto::hash;
+
+    // builds the ghost-chain message a peer sends for the blocks that follow `start`
+    fn ghost_chain(start: SaitoHash, first_id: u64, prehashes: Vec<SaitoHash>) -> (GhostChainSync, Vec<SaitoHash>) {
+        let mut previous = start;
+        let mut previous_block_hashes = vec![];
+        let mut hashes = vec![];
+        for prehash in prehashes.iter() {
+            previous_block_hashes.push(previous);
+            previous = hash(&[previous.as_slice(), prehash.as_slice()].concat());
+            hashes.push(previous);
+        }
+        let n = prehashes.len();
+        (
+            GhostChainSync {
+                start,
+                prehashes,
+                previous_block_hashes,
+                block_ids: (first_id..first_id + n as u64).collect(),
+                block_ts: (0..n as u64).map(|i| 1_000 + i).collect(),
+                txs: vec![false; n],
+                gts: vec![true; n],
+            },
+            hashes,
+        )
+    }
+
+    NodeTester::delete_data().await.unwrap();
+    // the state of a lite node: no blocks yet (process_ghost_chain is what the message handler of a
+    // lite node calls for every ghost chain a peer sends)
+    let mut tester = NodeTester::new(100, None, None);
+
+    // the peer's chain 1..5
+    let (chain_a, a) = ghost_chain([0; 32], 1, (1u8..=5).map(|i| [i; 32]).collect());
+    tester.routing_thread.verif_process_ghost_chain(chain_a, 1).await;
+    {
+        let blockchain = tester.routing_thread.blockchain_lock.read().await;
+        assert_eq!(blockchain.get_latest_block_id(), 5);
+        assert_eq!(blockchain.get_latest_block_hash(), a[4]);
+        // control: the by-height index is the chain of ancestors of the tip
+        let mut cursor = blockchain.get_latest_block_hash();
+        for id in (1..=5u64).rev() {
+            assert_eq!(
+                blockchain.blockring.get_longest_chain_block_hash_at_block_id(id),
+                Some(cursor)
+            );
+            cursor = blockchain.get_block(&cursor).unwrap().previous_block_hash;
+        }
+    }
+
+    // the peer reorganises at block 3 and sends the ghost chain of its new fork: 4', 5', 6'
+    let (chain_b, b) = ghost_chain(a[2], 4, (1u8..=3).map(|i| [0xb0 + i; 32]).collect());
+    tester.routing_thread.verif_process_ghost_chain(chain_b, 1).await;
+
+    let blockchain = tester.routing_thread.blockchain_lock.read().await;
+    assert_eq!(blockchain.get_latest_block_id(), 6, "setup: the tip follows the new fork");
+    assert_eq!(blockchain.get_latest_block_hash(), b[2]);
+    let tip = blockchain.get_block(&b[2]).unwrap();
+    assert_eq!(tip.previous_block_hash, b[1], "setup: the parent of the tip 6' is 5'");
+    assert_eq!(blockchain.get_block(&b[1]).unwrap().id, 5);
+    let indexed_at_5 = blockchain
+        .blockring
+        .get_longest_chain_block_hash_at_block_id(5)
+        .unwrap();
+    if !(indexed_at_5 == b[1]) { witness(format!("the node reports tip 6' whose parent is 5' ({}), but the longest-chain index at height 5 names block 5 of the abandoned fork ({}; it is the old block 5: {}): add_ghost_block marks entry 0 of the height as on-chain instead of the block it has just filed, so index and tip describe two different chains", hex::encode(&b[1][..4]), hex::encode(&indexed_at_5[..4]), indexed_at_5 == a[4])); }
+}
